@@ -144,7 +144,7 @@ def run(model, col, tier):
               f"the cast pass builds casts to kinds {sorted(builds)} but the CAST arm only executes {sorted(accepts)} (it asserts a scalar target): "
               "`int2 + float2` compiles and then fails with an AssertionError", VM, cast.case)
     cei = model.cls(ASTF, "CastExpression").own_method("__init__")
-    col.check("assert isinstance(targetType, types.PrimitiveType)" in unparse(cei), "R05.4", f"{ASTF}::CastExpression target is primitive", "a cast target is a primitive type", None, ASTF, cei)
+    col.check(f"assert isinstance({cei.args.args[2].arg}, types.PrimitiveType)" in unparse(cei), "R05.4", f"{ASTF}::CastExpression target is primitive", "a cast target is a primitive type", None, ASTF, cei)
     # ---------------- R05.5 ------------------------------------------------------
     lv = model.cls(LOWER, "LowerToIRVisitor")
     built = set(built_classes(model, G, D))
